@@ -41,6 +41,7 @@ def generate(run_seed, tier):
     if "transfer" in case["kw"]:
         case["kw"]["transfer"] = "fractional"
     case["policies"] = common.gen_policies(rng, run_seed)
+    case["history"] = rng.random() < 0.3 and case["rule"] not in G.SCORE_RULES
     return case
 
 
@@ -117,6 +118,11 @@ def outer_round(case, entry):
     if case["rule"] == "Alaska" and ctx[0] == "STV":
         return ctx[1] + 1
     return octx[1]
+
+
+def _cand_pop(en):
+    """the draw's population is a list of candidate names (the recognisable form); else it is opaque (indices, ...)"""
+    return isinstance(en.get("pop"), list) and len(en["pop"]) > 0 and all(isinstance(x, str) for x in en["pop"])
 
 
 def audit(case, o, e):
@@ -199,13 +205,16 @@ def audit(case, o, e):
                 groups_needed = [S]
             # draws for this tiebreak: exactly one per residual tied group
             for g in groups_needed:
-                hit = [i for i, en in enumerate(draws) if not used[i] and sorted(en["pop"]) == g and en["site"].endswith("tiebreak_set")]
-                if not hit:
-                    bad.append(("missing-draw", f"round {r}: candidates {g} are still tied on the tiebreak score but no draw over exactly them was made"))
-                else:
+                hit = [i for i, en in enumerate(draws) if not used[i] and _cand_pop(en) and sorted(en["pop"]) == g]
+                opaque = [i for i, en in enumerate(draws) if not used[i] and not _cand_pop(en)]
+                if hit:
                     used[hit[0]] = True
+                elif opaque:
+                    used[opaque[0]] = True  # a draw over indices or the like: cannot be attributed more precisely
+                else:
+                    bad.append(("missing-draw", f"round {r}: candidates {g} are still tied on the tiebreak score but no draw over exactly them was made"))
         for i, en in enumerate(draws):
-            if not used[i]:
+            if not used[i] and (_cand_pop(en) or not tbs):
                 bad.append(("unrecorded-draw", f"round {r}: draw at {en['site']} over {en['pop']} does not belong to any recorded tiebreak {tbs}"))
     return bad
 
@@ -291,6 +300,35 @@ def execute(case, trace=False):
                 tb = type(ob.exc).__name__ if ob.exc else None
                 if len(sa) != len(sb) or ta != tb:
                     viol("diverge-without-tiebreak", f"runs under {pa['kind']} and {pb['kind']} agree on every common round yet end differently: {len(sa) - 1} rounds/{ta} vs {len(sb) - 1} rounds/{tb}")
+    # ---- state carried across calls: related elections in the same interpreter (same ballots, the candidate list with a
+    # zero-vote candidate added / zero-vote candidates removed), each audited like the main one.  A result that depends on
+    # which elections ran earlier (a cache keyed too coarsely, a mutated default) shows as an audit failure of a later one.
+    if case.get("history"):
+        jp = case["profile"]
+        voted = {c for b in jp["ballots"] for g in (b.get("r") or []) for c in g} | {c for b in jp["ballots"] for c in (b.get("s") or {})}
+        variants = []
+        extra = [c for c in ("Zz", "Zy") if c not in jp["candidates"]][:1]
+        variants.append(dict(jp, candidates=list(jp["candidates"]) + extra))
+        trimmed = [c for c in jp["candidates"] if c in voted]
+        if 0 < len(trimmed) < len(jp["candidates"]):
+            variants.append(dict(jp, candidates=trimmed))
+        variants.append(jp)  # and the original once more, after the others
+        for vj in variants:
+            n_c = len(vj["candidates"])
+            kw2 = dict(kw)
+            for key in ("m", "m_1", "m_2"):
+                if key in kw2:
+                    kw2[key] = min(kw2[key], n_c)
+            if rule == "TopTwo" and n_c < 2:
+                continue
+            c2 = dict(case, profile=vj, kw=kw2)
+            for pol in case["policies"][:2]:
+                o = common.run_rule(c2, pol, log_populations=True)
+                bump(faults, "history_elections")
+                if o.election is None:
+                    continue
+                for clause, msg in audit(c2, o, o.election):
+                    viol(clause, f"history: same ballots, candidates {vj['candidates']}, under schedule {pol['kind']}: {msg}")
     any_tb = any(e is not None and any(s.tiebreaks for s in e.election_states) for _, _, e, _ in runs)
     bump(probes, "cases_without_tiebreak", int(not any_tb))
     res = {
